@@ -252,15 +252,16 @@ const (
 	UEMethNamedHelper // func (q *Q) Helper(...) {…}  — a method that merely shares the @testonly function's name
 	UEFuncNamedReset  // func Reset(...) {…}          — a function that shares a @testonly method's name
 	UEMethQReset      // func (q *Q) Reset(...) {…}   — same method name, other receiver type
+	UENoImport        // a function in a file of the importing package that does not import d: calls through helpers of a.go
 	nUseEncl
 )
 
 var UseEnclNames = []string{"plain-func", "testonly-func", "testonly-method", "method-Q", "pkgvar-closure",
 	"func-param-Mock", "func-result-Mock", "struct-field-Mock", "pkgvar-typed-Mock", "pkgvar-lit-Mock",
-	"method-named-Helper", "func-named-Reset", "method-Q-named-Reset"}
+	"method-named-Helper", "func-named-Reset", "method-Q-named-Reset", "func-in-import-free-file"}
 
 func (e UseEncl) String() string { return UseEnclNames[e] }
-func (e UseEncl) hasBody() bool  { return e <= UEPkgVar || e >= UEMethNamedHelper }
+func (e UseEncl) hasBody() bool  { return e <= UEPkgVar || (e >= UEMethNamedHelper && e != UENoImport) }
 func (e UseEncl) HasBody() bool  { return e.hasBody() }
 
 // FixedName is non-empty for enclosers that can occur once per package.
@@ -477,11 +478,14 @@ func RenderUse(s *UseSpec) *UseRendered {
 		st = strings.ReplaceAll(st, "{q}Mock", mock)
 		return strings.NewReplacer("{q}", q, "$v", fmt.Sprintf("v%d", ctr)).Replace(st)
 	}
-	files := make([]*lineWriter, 3)
-	perFile := make([][]UseSiteInst, 3)
-	used := []bool{true, false, false}
-	for _, b := range s.Blocks {
-		used[b.File] = true
+	files := make([]*lineWriter, 4)
+	perFile := make([][]UseSiteInst, 4)
+	used := []bool{true, false, false, false}
+	for bi := range s.Blocks {
+		if s.Blocks[bi].Encl == UENoImport {
+			s.Blocks[bi].File = 3
+		}
+		used[s.Blocks[bi].File] = true
 	}
 	for i := range files {
 		if !used[i] {
@@ -491,6 +495,9 @@ func RenderUse(s *UseSpec) *UseRendered {
 		files[i] = w
 		w.add("package " + s.Pkg.Name)
 		w.add("")
+		if i == 3 {
+			continue // the import-free file
+		}
 		if !inD {
 			if s.Spell == SpRenamedImp {
 				w.add(`import dd "ex.com/m/d"`)
@@ -515,6 +522,11 @@ func RenderUse(s *UseSpec) *UseRendered {
 		usePreludeD(w0, s.Mix)
 	}
 	w0.add("type Q struct{ K int }")
+	w0.add("")
+	w0.add("// hs and hsp hand out values of d's S, so that other files can call its methods without importing d.")
+	w0.add("func hs() " + q + "S { return " + q + "S{} }")
+	w0.add("")
+	w0.add("func hsp() *" + q + "S { return nil }")
 	w0.add("")
 	if !inD {
 		w0.add("// Helper and Mock are this package's own, unannotated items; they only share their names with d's.")
@@ -583,6 +595,17 @@ func RenderUse(s *UseSpec) *UseRendered {
 			w.addf("func (q *Q) Reset%s {", params)
 		case UEPkgVar:
 			w.addf("var _ = func%s int {", params)
+		case UENoImport:
+			w.addf("func fn%d() {", bi)
+			ln := w.add("\ths().Reset()")
+			rec(nil, "noimport mcall hs().Reset()", UKMethod, "", 0, ln)
+			ln = w.add("\thsp().ResetP()")
+			rec(nil, "noimport mcall hsp().ResetP()", UKMethod, "", 1, ln)
+			ln = w.add("\ths().Keep()")
+			rec(nil, "noimport twin hs().Keep()", UKNone, "", 2, ln)
+			w.add("}")
+			w.add("")
+			continue
 		case UEParamMock:
 			ln := w.addf("func fp%d(m %s) {}", bi, mock)
 			rec(nil, "func param Mock", UKType, "Mock", 0, ln)
